@@ -1,0 +1,208 @@
+//! Verification hooks (only compiled with `--cfg nuts_rs_verif`).
+//!
+//! This module gives an external conformance harness access to crate-private
+//! items (by re-export or thin wrapper), an event tracer that the hook call
+//! sites in the crate write to, and schedule points for the parallel sampler.
+//! Nothing here changes behaviour: with no sink / scheduler installed every
+//! hook is a no-op.
+
+use std::cell::RefCell;
+use std::sync::atomic::{AtomicBool, AtomicU64, Ordering};
+use std::sync::{Arc, Mutex, RwLock};
+
+pub use serde_json::{Value as Json, json};
+
+pub use crate::adapt_strategy::{
+    CombinedCollector, GlobalStrategy, GlobalStrategyStatsOptions,
+};
+pub use crate::chain::{AdaptStrategy, NutsChain, NutsStats, StatOptions};
+pub use crate::dynamics::{
+    Direction, DivergenceStatsOptions, Hamiltonian, LeapfrogResult, Point, State, StatePool,
+    TransformedHamiltonian, TransformedPoint, TransformedPointStatsOptions,
+};
+pub use crate::external_adapt_strategy::ExternalTransformAdaptation;
+pub use crate::nuts::{Collector, NutsOptions, SampleInfo};
+pub use crate::sampler_stats::StatsDims;
+pub use crate::stepsize::{
+    VerifAcceptanceRateCollector as AcceptanceRateCollector, VerifAdam as Adam,
+    VerifDualAverage as DualAverage, VerifStrategy as StepSizeStrategy,
+};
+pub use crate::storage::{ChainStorage, StorageConfig, TraceStorage};
+pub use crate::transform::{
+    ExternalTransformation, LowRankMassMatrixStrategy, Transformation,
+    VerifDiagAdaptStrategy as DiagAdaptStrategy, VerifDiagMassMatrix as DiagMassMatrix,
+    VerifLowRankMassMatrix as LowRankMassMatrix,
+    VerifMassMatrixAdaptStrategy as MassMatrixAdaptStrategy,
+};
+
+pub fn logaddexp(a: f64, b: f64) -> f64 {
+    crate::math::logaddexp(a, b)
+}
+
+/// Wrapper around the crate-private tree builder.
+pub fn nuts_draw<M, H, R, C>(
+    math: &mut M,
+    init: &mut State<M, H::Point>,
+    rng: &mut R,
+    hamiltonian: &mut H,
+    options: &NutsOptions,
+    collector: &mut C,
+) -> Result<(State<M, H::Point>, SampleInfo), crate::NutsError>
+where
+    M: crate::Math,
+    H: Hamiltonian<M>,
+    R: rand::Rng + ?Sized,
+    C: Collector<M, H::Point>,
+{
+    crate::nuts::draw(math, init, rng, hamiltonian, options, collector)
+}
+
+// ---------------------------------------------------------------------------
+// Event tracer
+// ---------------------------------------------------------------------------
+
+thread_local! {
+    static LOCAL_SINK: RefCell<Option<Vec<Json>>> = const { RefCell::new(None) };
+}
+
+static GLOBAL_ON: AtomicBool = AtomicBool::new(false);
+static GLOBAL_SEQ: AtomicU64 = AtomicU64::new(0);
+static GLOBAL_SINK: Mutex<Option<(Vec<&'static str>, Vec<Json>)>> = Mutex::new(None);
+
+/// Install a sink for the current thread; all categories are recorded.
+pub fn install_local_sink() {
+    LOCAL_SINK.with(|s| *s.borrow_mut() = Some(Vec::new()));
+}
+
+/// Remove the current thread's sink and return what it recorded.
+pub fn take_local_sink() -> Vec<Json> {
+    LOCAL_SINK.with(|s| s.borrow_mut().take().unwrap_or_default())
+}
+
+/// Drain the events of the current thread's sink without removing it.
+pub fn drain_local_sink() -> Vec<Json> {
+    LOCAL_SINK.with(|s| {
+        s.borrow_mut()
+            .as_mut()
+            .map(std::mem::take)
+            .unwrap_or_default()
+    })
+}
+
+/// Install a process-wide sink that records the given categories from every
+/// thread that has no thread-local sink.
+pub fn install_global_sink(categories: &[&'static str]) {
+    *GLOBAL_SINK.lock().unwrap_or_else(|e| e.into_inner()) =
+        Some((categories.to_vec(), Vec::new()));
+    GLOBAL_SEQ.store(0, Ordering::SeqCst);
+    GLOBAL_ON.store(true, Ordering::SeqCst);
+}
+
+pub fn take_global_sink() -> Vec<Json> {
+    GLOBAL_ON.store(false, Ordering::SeqCst);
+    GLOBAL_SINK
+        .lock()
+        .unwrap_or_else(|e| e.into_inner())
+        .take()
+        .map(|x| x.1)
+        .unwrap_or_default()
+}
+
+/// Record an event. `f` is only evaluated if a sink wants the event.
+#[inline]
+pub fn emit(category: &'static str, f: impl FnOnce() -> Json) {
+    let mut f = Some(f);
+    let handled = LOCAL_SINK.with(|s| {
+        if let Ok(mut guard) = s.try_borrow_mut() {
+            if let Some(sink) = guard.as_mut() {
+                let mut ev = (f.take().unwrap())();
+                if let Some(obj) = ev.as_object_mut() {
+                    obj.insert("cat".into(), Json::from(category));
+                }
+                sink.push(ev);
+                return true;
+            }
+        }
+        false
+    });
+    if handled || !GLOBAL_ON.load(Ordering::Relaxed) {
+        return;
+    }
+    let mut guard = GLOBAL_SINK.lock().unwrap_or_else(|e| e.into_inner());
+    if let Some((cats, sink)) = guard.as_mut() {
+        if cats.contains(&category) {
+            let mut ev = (f.take().unwrap())();
+            if let Some(obj) = ev.as_object_mut() {
+                obj.insert("cat".into(), Json::from(category));
+                obj.insert(
+                    "seq".into(),
+                    Json::from(GLOBAL_SEQ.fetch_add(1, Ordering::SeqCst)),
+                );
+            }
+            sink.push(ev);
+        }
+    }
+}
+
+/// Whether any sink is installed for this thread (lets call sites skip
+/// computing expensive projections).
+pub fn tracing() -> bool {
+    LOCAL_SINK.with(|s| s.try_borrow().map(|g| g.is_some()).unwrap_or(false))
+        || GLOBAL_ON.load(Ordering::Relaxed)
+}
+
+// ---------------------------------------------------------------------------
+// Schedule points for the parallel sampler
+// ---------------------------------------------------------------------------
+
+pub type Scheduler = Arc<dyn Fn(&'static str, i64) + Send + Sync>;
+
+static SCHEDULER: RwLock<Option<Scheduler>> = RwLock::new(None);
+static SCHED_ON: AtomicBool = AtomicBool::new(false);
+
+pub fn install_scheduler(s: Scheduler) {
+    *SCHEDULER.write().unwrap_or_else(|e| e.into_inner()) = Some(s);
+    SCHED_ON.store(true, Ordering::SeqCst);
+}
+
+pub fn remove_scheduler() {
+    SCHED_ON.store(false, Ordering::SeqCst);
+    *SCHEDULER.write().unwrap_or_else(|e| e.into_inner()) = None;
+}
+
+/// A schedule point: `who` is -1 for the controller, the chain id otherwise.
+#[inline]
+pub fn sched(point: &'static str, who: i64) {
+    if !SCHED_ON.load(Ordering::Relaxed) {
+        return;
+    }
+    let s = SCHEDULER
+        .read()
+        .unwrap_or_else(|e| e.into_inner())
+        .as_ref()
+        .cloned();
+    if let Some(s) = s {
+        s(point, who);
+    }
+}
+
+/// Bit pattern helper so floats survive JSON exactly.
+pub fn bits(x: f64) -> Json {
+    Json::from(format!("{:016x}", x.to_bits()))
+}
+
+pub fn bits_vec(x: &[f64]) -> Json {
+    Json::from(x.iter().map(|v| bits(*v)).collect::<Vec<_>>())
+}
+
+/// FNV-1a hash over the bit patterns of a float slice (position interning).
+pub fn hash_f64s(x: &[f64]) -> String {
+    let mut h: u64 = 0xcbf29ce484222325;
+    for v in x {
+        for b in v.to_bits().to_le_bytes() {
+            h ^= b as u64;
+            h = h.wrapping_mul(0x100000001b3);
+        }
+    }
+    format!("{:016x}", h)
+}
